@@ -2,7 +2,9 @@
 
 package wsutil
 
-import "io"
+import (
+	"io"
+)
 
 // vSrc serves data with nondeterministic chunking (all / 1 byte / 2 bytes per Read).
 type vSrc struct {
